@@ -43,6 +43,8 @@ pub type Context = blake2s::ContextDyn;
 pub struct Blake2s {
     ctx: blake2s::ContextDyn,
     computed: bool, // whether the final digest has been computed
+    key: [u8; 32],  // key the context has been created or reset with (needed to reset a keyed context)
+    keylen: usize,
 }
 
 impl Blake2s {
@@ -54,6 +56,8 @@ impl Blake2s {
         Self {
             ctx,
             computed: false,
+            key: [0; 32],
+            keylen: 0,
         }
     }
 
@@ -62,9 +66,13 @@ impl Blake2s {
     pub fn new_keyed(outlen: usize, key: &[u8]) -> Self {
         assert!(key.len() <= 64);
         let ctx = blake2s::ContextDyn::new_keyed(outlen, key);
+        let mut stored = [0; 32];
+        stored[..key.len()].copy_from_slice(key);
         Self {
             ctx,
             computed: false,
+            key: stored,
+            keylen: key.len(),
         }
     }
 
@@ -79,15 +87,23 @@ impl Blake2s {
         self.computed = true;
     }
 
-    /// Reset the context to the state after calling `new`
+    /// Reset the context to the state after calling `new` (or `new_keyed` with the same key
+    /// for a keyed context)
     pub fn reset(&mut self) {
-        self.ctx.reset();
+        if self.keylen > 0 {
+            self.ctx.reset_with_key(&self.key[..self.keylen]);
+        } else {
+            self.ctx.reset();
+        }
         self.computed = false;
     }
 
     /// Reset the blake2 context with a key
     pub fn reset_with_key(&mut self, key: &[u8]) {
         self.ctx.reset_with_key(key);
+        self.key = [0; 32];
+        self.key[..key.len()].copy_from_slice(key);
+        self.keylen = key.len();
         self.computed = false;
     }
 
